@@ -586,7 +586,17 @@ def run(ctx):
 
     # 4. observations on real sockets (implementation vs oracle only)
     ocases = gen_obs(ctx, thorough)
-    rc, outs, errtxt = C.run_filter([exe], ocases, timeout=1700)
+    # a small probe batch first: when real transfers hang (each costs a watchdog period) the remaining cases add
+    # nothing but minutes, so the rest is skipped once the probe batch already shows hangs
+    probe = ocases[:3]
+    rc, outs, errtxt = C.run_filter([exe], probe, timeout=600)
+    hung = sum(1 for o in outs if o.startswith("signal 14"))
+    if hung >= 2 or len(outs) != len(probe):
+        ocases = probe
+        ctx.extra["observations_truncated_after_hangs"] = hung
+    else:
+        rc, outs2, errtxt = C.run_filter([exe], ocases[len(probe):], timeout=1700)
+        outs = outs + outs2
     obs = {"cases": len(ocases), "failures": 0, "streams": 0, "bytes": 0, "writer_waited_for_readiness": 0, "reader_waited_for_readiness": 0,
            "timed": 0, "try": 0, "blocking": 0}
     if len(outs) != len(ocases):
